@@ -1258,8 +1258,12 @@ func c10CheckSQLCommit(p *Program, r *Reporter) {
 		why := "Rollback is not on the sticky-error edge"
 		if okR {
 			idx := ErrResultIndex(fn)
+			// every return that can FOLLOW the Rollback (reachable from it), not only
+			// those its block dominates: with `if bt.tx != nil { Rollback }; return
+			// bt.err` the return is shared with the no-transaction path
+			after := ReachableFrom(c.Instr, nil)
 			for _, ri := range Returns(fn) {
-				if !(c.Block() == ri.Ret.Block() || c.Block().Dominates(ri.Ret.Block())) {
+				if !after[ri.Ret] {
 					continue
 				}
 				v := ri.Results[idx]
